@@ -1,5 +1,4 @@
 /- C14: each checksum algorithm computes its published definition on every byte string. -/
-import FinProto.Obl.Side
 import FinProto.Props.ChecksumProofs
 namespace FinProto.Obl
 end FinProto.Obl
